@@ -13,6 +13,7 @@ PROP = {
                   "(block store) for every codec with decompress(compress x)=x, every block size and every list of non-empty documents (incl. larger than a block): the "
                   "writer never panics, blocks partition the documents, checkpoints are contiguous, the offset table reads back every document and "
                   "get(write docs) i = nth i docs through the skip index; the block cache is transparent under any replacement policy. "
+                  "(vint) serialize_vint_u32 with its four regenerated branch thresholds is read back by read_u32_vint for every u32 (CompactDoc length prefixes). "
                   "Partial (_partial, tied by the correspondence only, no theorem): iter_raw/alive bitsets (C09_iter), stack/re-append merges (C09_merge_store), and the "
                   "byte-level framing of the store file (footer, layer-offset header: store_open/si_open) -- these models are run on the implementation's files every run. "
                   "Tie: the Coq reader model (footer, skip index, block offset table) is run on the implementation's store files; the Coq document decoder on the "
@@ -23,7 +24,7 @@ PROP = {
                   "decompress (compress x) = Some x. serde_json (PreTokenizedString payload) and UTF-8 validation are outside the model. "
                   "No axioms (Print Assumptions: closed under the global context).",
     "technique": "Coq proof (builder invariant by induction over insertions, tree descent, codec round trips) + correspondence cases evaluated by vm_compute",
-    "rule": "cases: store files (non-trivial: >= 2 documents), documents (non-trivial: >= 1 stored value), merges (always non-trivial), index documents (>= 2 stored values); "
+    "rule": "cases: vint boundary values (non-trivial: >= 128), large stored values (Rust side), codec-switch merges (9 codec pairs x block count x deletes); store files (non-trivial: >= 2 documents), documents (non-trivial: >= 1 stored value), merges (always non-trivial), index documents (>= 2 stored values); "
             "distinct by hash of the Gallina case term",
     "trusted_base": COMMON_TB + ["lz4_flex / zstd: contract decompress (compress x) = Some x (Section hypothesis), exercised by the harness under every configuration",
                                  "serde_json text of PreTokenizedString is an opaque byte string in the model; UTF-8 validation of strings is not modelled"],
